@@ -75,6 +75,8 @@ def explore(part, prog, failing, bound, max_execs):
                 o = E.Outcome()
                 o.kind = "hang"
                 o.explorer = None
+            if WP.WATCHDOG["fired"]:
+                o.kind = "hang"
             o.log = [WP.canon(r) for r in WP.log_records(tasks.read_log())]
             o.cached_ok = set()
             if o.kind != "hang":
